@@ -10,6 +10,8 @@ B_err2    == << Blk("ok", 2, 2, 0), Blk("ok", 2, 2, 2), Blk("ok", 1, 1, 0) >>
 B_err1    == << Blk("ok", 2, 2, 1), Blk("ok", 1, 2, 0), Blk("ok", 1, 1, 1) >>
 B_badhdr  == << Blk("ok", 2, 2, 0), Blk("ok", 2, 1, 2), Blk("bad", 1, 1, 0) >>
 B_badhdr2 == << Blk("ok", 2, 2, 0), Blk("bad", 1, 1, 0) >>
+B_badinit == << Blk("ok", 2, 2, 0), Blk("badinit", 1, 1, 0), Blk("ok", 1, 1, 0) >>
+B_badinit1 == << Blk("badinit", 2, 2, 0), Blk("ok", 1, 1, 0) >>
 B_direct  == << Blk("ok", 2, 2, 0), Blk("direct", 2, 2, 0), Blk("ok", 1, 1, 0) >>
 B_direrr  == << Blk("ok", 1, 2, 0), Blk("direct", 2, 2, 2) >>
 B_empty   == << Blk("ok", 1, 0, 0), Blk("ok", 1, 1, 0), Blk("ok", 1, 0, 0) >>
